@@ -61,6 +61,7 @@ def gen_scenario(rng, profile=None):
     scn["plan"] = p.get("plan") or [{"inp": "infretis.toml", "steps": steps}]
     # a collective-variable column of large magnitude next to the order parameter (energy-like values)
     scn["big_cv"] = p.get("big_cv", rng.choice([0.0] * 8 + [-23456.789012, 250000.125, -1500000.5]))
+    scn["energies"] = p.get("energies", rng.random() < 0.3)      # lattice frames carry vpot/ekin
     scn["keep_aux"] = p.get("keep_aux", rng.random() < 0.15)    # output.keep_traj_fnames = [".aux"]
     scn["stale_data_file"] = p.get("stale_data_file", rng.random() < 0.15)
     if scn["engine"] == "turtlemd":
@@ -129,6 +130,8 @@ def build_config(scn):
            "timestep": 1.0, "subcycles": 1}
     if scn.get("big_cv"):
         eng["big_cv"] = scn["big_cv"]
+    if scn.get("energies"):
+        eng["energies"] = True
     if scn.get("keep_aux"):
         eng["aux"] = True
         cfg["output"]["keep_traj_fnames"] = [".aux"]
